@@ -25,7 +25,7 @@ func ruleC17(prog *Program, rep *Report) {
 	ruleFindFirst(prog, rep, "jp")
 	ruleQuotedIsString(prog, rep, jsonFrontEnds[2], senFrontEnds[1])
 	ruleBufView(prog, rep, 20, "oj", "sen")
-	ruleReaderLoops(prog, rep) // MatchLoad sees the document through the reader entry: every chunk, and the end of input, reach the tokenizer
+	ruleReaderLoops(prog, rep)                                 // MatchLoad sees the document through the reader entry: every chunk, and the end of input, reach the tokenizer
 	ruleAddrRetain(prog, rep, 1, "jp")                         // the handler keeps one entry per target
 	ruleBufAlias(prog, rep, jsonFrontEnds[2], senFrontEnds[1]) // a string delivered to the callback must survive the next read
 	// T-leaf
